@@ -105,8 +105,61 @@ def probe_on_complete():
     return None
 
 
+def probe_execute_single():
+    import asyncio
+
+    import elasticsearch
+
+    from esrally import exceptions
+    from esrally.driver import driver
+
+    class R:
+        def __init__(self, outcome):
+            self.outcome = outcome
+
+        async def __aenter__(self):
+            return self
+
+        async def __aexit__(self, *a):
+            return False
+
+        async def __call__(self, es, params):
+            if isinstance(self.outcome, BaseException):
+                raise self.outcome
+            return dict(self.outcome) if isinstance(self.outcome, dict) else self.outcome
+
+        def __str__(self):
+            return "probe-runner"
+
+    cases = [
+        ({"weight": 5, "unit": "docs", "success": False, "error-type": "bulk"}, False), ({"weight": 5, "unit": "docs", "success": True}, True), ({"weight": 1}, True), ((3, "docs"), True), (None, True),
+        (elasticsearch.ConnectionTimeout("t"), False), (elasticsearch.TransportError("x"), False), (elasticsearch.ConnectionError("refused"), "fatal"),
+    ]
+    for outcome, ok in cases:
+        for on_error in ("abort", "continue"):
+            try:
+                res = asyncio.run(driver.execute_single(R(outcome), None, {}, on_error))
+                err = None
+            except exceptions.RallyAssertionError as e:
+                res, err = None, e
+            what = f"execute_single: runner -> {outcome!r}, on-error={on_error}"
+            must_raise = ok == "fatal" or (ok is False and on_error == "abort")
+            if must_raise and err is None:
+                return f"{what}: returned {res} instead of raising (a failed request under on-error=abort / a refused connection must end the race)"
+            if not must_raise and err is not None:
+                return f"{what}: raised {err}"
+            if err is None and bool(res[2].get("success")) != (ok is True):
+                return f"{what}: request meta-data says success={res[2].get('success')}"
+    try:
+        asyncio.run(driver.execute_single(R(KeyError("p")), None, {}, "continue"))
+        return "execute_single: a KeyError of the runner (missing parameter) was swallowed"
+    except exceptions.SystemSetupError:
+        pass
+    return None
+
+
 def main(rec):
-    for f in (probe_guard, probe_child_exited, probe_benchmark_actor, probe_on_complete):
+    for f in (probe_execute_single, probe_guard, probe_child_exited, probe_benchmark_actor, probe_on_complete):
         try:
             v = f()
         except Exception as ex:  # noqa
